@@ -82,6 +82,11 @@ def drive_b(rec, part, count):
         asl = n if big_a else n + rng.choice([0, 1, 5, 17, 1000])
         bsl = n if big_b else n + rng.choice([0, 2, 7, 33])
         mk = rng.choice(["fft64", "fft64-generic"] + ([] if big else ["ntt120"]))
+        if it % 9 == 4:                      # one-limb operands: their stride is never used to reach a second limb, any value will do (0 included)
+            rs, as_, bs = min(rs, 1), min(as_, 1), min(bs, 1)
+            rsl = rsl if big else rng.choice([0, 0, n, 7])
+            asl = asl if big_a else rng.choice([0, 0, n, 3])
+            bsl = bsl if big_b else rng.choice([0, 0, n, 5])
         R = Buf(8 * ((rs - 1) * rsl + n) if rs else 0, fill=0x6B, off=rng.choice([0, 8, 24]))
         A = Buf(8 * ((as_ - 1) * asl + n) if as_ else 0, fill=rng.choice([0x11, 0x00]))      # between the limbs: a pattern, or zeros
         B = Buf(8 * ((bs - 1) * bsl + n) if bs else 0, fill=rng.choice([0x22, 0x00]))
